@@ -79,7 +79,7 @@ func main() {
 		digest := hex.EncodeToString(h.Sum(nil)[:6])
 		if dir != "" {
 			if f, err := os.OpenFile(filepath.Join(dir, "log"), os.O_APPEND|os.O_CREATE|os.O_WRONLY, 0o644); err == nil {
-				fmt.Fprintf(f, "%d %s\n", m.StreamID, digest)
+				fmt.Fprintf(f, "%s %d %s\n", filepath.Base(os.Args[0]), m.StreamID, digest)
 				f.Close()
 			}
 			if _, err := os.Stat(filepath.Join(dir, "failmode")); err == nil {
